@@ -46,6 +46,7 @@ ASSUMPTIONS = [
     "first_occurrence of a traffic sign, the centre line of a lanelet, TrafficLight.color and the state class name are not part of "
     "the XML format (derived on reading) and are not compared",
 ]
+EXTRA_MODULES = ["CRProps.T01"]      # translator tie: Gen.SrcC01 (regenerated from the repo every run) vs the codec model
 TRUSTED = ["harness/snapshot.py (structural snapshot through public accessors) and harness/gen_scenario.py (spec -> objects)"]
 REQUIRED_BUCKETS = ["role:static", "role:dynamic", "role:environment", "role:phantom", "pred:trajectory", "pred:set",
                     "shape:rect", "shape:circ", "shape:poly", "shape:group", "state:interval", "state:region", "state:custom",
